@@ -135,5 +135,64 @@ func scripted(seed int64) []*hist {
 		}
 		out = append(out, h)
 	}
+	// -7: boundary values of the custom parameters under the keys the lookup really derives
+	// ("/google.protobuf.Any" for proposals with messages, "" for metadata-only ones): quorum exactly 0,
+	// the smallest positive quorum, quorum exactly 1, the shortest voting period.  The default quorum of
+	// this history is 99.9%, one delegator votes yes: the outcome must follow the STORED quorum.
+	{
+		h := newHist(seed, -7, "custom")
+		min := h.minFor(false)
+		sec, hour := time.Second, time.Hour
+		yes := [][2]string{{"1", e18.String()}}
+		h.opCustom(true, tyAny, &fxgovtypes.CustomParams{DepositRatio: "0", VotingPeriod: &hour, Quorum: "0"})
+		h.opCustom(true, tyNone, &fxgovtypes.CustomParams{DepositRatio: "1", VotingPeriod: &sec, Quorum: "0.000000000000000001"})
+		h.opSubmitKind("text", 10, min, false) // 1: key Any, quorum 0, 1 h
+		h.opSubmitKind("none", 11, min, false) // 2: key "", quorum 1e-18, 1 s
+		h.opVote(1, 12, yes, false)
+		h.opVote(2, 12, yes, false)
+		h.opEndBlock(lib.BlockStep)           // 2 ends: passes on the smallest quorum
+		h.opEndBlock(time.Hour + time.Minute) // 1 ends: passes on quorum 0
+		h.opCustom(true, tyAny, &fxgovtypes.CustomParams{DepositRatio: "0", VotingPeriod: &hour, Quorum: "0"})
+		h.opSubmitKind("xparams", 10, min, false) // 3: quorum 0 and nobody votes: rejected, nothing burned
+		h.opCustom(true, tyAny, &fxgovtypes.CustomParams{DepositRatio: "0", VotingPeriod: &hour, Quorum: "1"})
+		h.opSubmitKind("text", 11, min, false) // 4: activated under quorum 1 ...
+		h.opVote(4, 12, yes, false)
+		h.opCustom(true, tyAny, &fxgovtypes.CustomParams{DepositRatio: "0", VotingPeriod: &hour, Quorum: "0"})
+		h.opEndBlock(time.Hour + time.Minute) // ... tallied under quorum 0 (3 and 4 end)
+		h.opCustom(true, tyAny, &fxgovtypes.CustomParams{DepositRatio: "0", VotingPeriod: &hour, Quorum: "1"})
+		h.opSubmitKind("text", 13, min, false) // 5: quorum exactly 1 with partial turnout: rejected
+		h.opVote(5, 12, yes, false)
+		h.opCustom(true, tyAny, nil)           // removed: back to the default
+		h.opSubmitKind("text", 14, min, false) // 6: default period and quorum again
+		h.opVote(6, 12, yes, false)
+		for k := 0; k < 3 && len(h.openIDs(0)) > 0 && !h.halted; k++ {
+			h.opEndBlock(time.Duration(h.params.VotingPeriod.Seconds()/2+1800) * time.Second)
+		}
+		out = append(out, h)
+	}
+	// -8 (monitor only): crisis MsgVerifyInvariant signed by the module account, while another proposal's
+	// deposit sits on the account: (a) the gov module-account invariant — broken by the fee charge itself,
+	// the handler panics, the cache branch is dropped; (b) an invariant that holds — the fee stays charged
+	{
+		h := newHist(seed, -8, "govsend")
+		min := h.minFor(false)
+		two := new(big.Int).Mul(min, big.NewInt(2))
+		h.opSubmitCrisis(10, "gov", "module-account", min)           // 1
+		h.opSubmitCrisis(11, "bank", "nonnegative-outstanding", min) // 2
+		for _, id := range []uint64{1, 2} {
+			for _, v := range []int64{0, 1, 2, 10, 11, 12, 13} {
+				h.opVote(id, v, [][2]string{{"1", e18.String()}}, false)
+			}
+		}
+		h.opEndBlock(time.Hour)
+		h.opSubmitKind("text", 12, two, false) // 3: 20,000 FX of somebody else's deposit on the account
+		if p := h.propObs(1); p != nil && p.Status == 2 {
+			h.opEndBlock(time.Duration(p.VEnd-rel(h.c.Time)) * time.Second) // 1 and 2 end
+		}
+		for k := 0; k < 3 && len(h.openIDs(0)) > 0 && !h.halted; k++ {
+			h.opEndBlock(2 * time.Hour) // 3 ends
+		}
+		out = append(out, h)
+	}
 	return out
 }
